@@ -76,6 +76,10 @@ func H_c02_sender_faults() {
 			symAssert(confirmed, "reported-sent-only-after-peer-confirmation-byte (F or ;)")
 			symAssert(k >= fsLen, "reported-sent-only-if-FS-line-arrived")
 		}
+		if count(s.trafficStats.Sent, mid) > 0 {
+			// the statistics of a failed turn must not list what the peer never confirmed either
+			symAssert(ans[i] == '+' && confirmed && k >= fsLen, "traffic-stats-list-only-confirmed-transfers")
+		}
 		if ans[i] == '+' {
 			_, data, used, ok := refParseFrame(rest, "0")
 			if count(h.sent, mid) > 0 {
